@@ -174,6 +174,7 @@ Lemma features_initiator_fits n cfg first b : b < n -> fits b (features_initiato
 Proof.
   intro Hb. unfold features_initiator. constructor. intros t b' Hb'.
   destruct t as [c| | | |]; try constructor. destruct c; try constructor.
+  2: { apply fits_bind; [apply skip_fits; lia | intro; constructor]. }
   apply fits_bind; [apply read_children_fits; lia|].
   intro l. unfold get_bits. cbn [bind]. constructor. intro bits.
   assert (HL : forall force, fits b' (init_loop (S (length (fl_cache l))) n cfg l force [] false)).
